@@ -33,8 +33,29 @@ PctOk(s, i, Allowed) ==
 DotSeg(seg) == LET l == [i \in 1..Len(seg) |-> Lower(seg[i])] IN
   l \in { <<46>>, <<46, 46>>, <<37, 50, 101>>, <<37, 50, 101, 46>>, <<46, 37, 50, 101>>, <<37, 50, 101, 37, 50, 101>> }
 
+\* UTF-8 well-formedness (RFC 3629: no overlong forms, no surrogates, nothing above U+10FFFF)
+Cont(s, i) == i <= Len(s) /\ s[i] \in 128..191
+RECURSIVE Utf8Ok(_, _)
+Utf8Ok(s, i) ==
+  IF i > Len(s) THEN TRUE
+  ELSE LET b == s[i] IN
+       IF b < 128 THEN Utf8Ok(s, i+1)
+       ELSE IF b \in 194..223 THEN Cont(s, i+1) /\ Utf8Ok(s, i+2)
+       ELSE IF b = 224 THEN i+1 <= Len(s) /\ s[i+1] \in 160..191 /\ Cont(s, i+2) /\ Utf8Ok(s, i+3)
+       ELSE IF b \in (225..236) \cup {238, 239} THEN Cont(s, i+1) /\ Cont(s, i+2) /\ Utf8Ok(s, i+3)
+       ELSE IF b = 237 THEN i+1 <= Len(s) /\ s[i+1] \in 128..159 /\ Cont(s, i+2) /\ Utf8Ok(s, i+3)
+       ELSE IF b = 240 THEN i+1 <= Len(s) /\ s[i+1] \in 144..191 /\ Cont(s, i+2) /\ Cont(s, i+3) /\ Utf8Ok(s, i+4)
+       ELSE IF b \in 241..243 THEN Cont(s, i+1) /\ Cont(s, i+2) /\ Cont(s, i+3) /\ Utf8Ok(s, i+4)
+       ELSE IF b = 244 THEN i+1 <= Len(s) /\ s[i+1] \in 128..143 /\ Cont(s, i+2) /\ Cont(s, i+3) /\ Utf8Ok(s, i+4)
+       ELSE FALSE
+HasHigh(t) == \E i \in 1..Len(t) : t[i] >= 128
+HexUp(n) == IF n < 10 THEN 48 + n ELSE 55 + n
+RECURSIVE EncHigh(_)
+EncHigh(s) == IF s = <<>> THEN <<>>
+              ELSE (IF s[1] >= 128 THEN <<37, HexUp(s[1] \div 16), HexUp(s[1] % 16)>> ELSE <<s[1]>>) \o EncHigh(Tail(s))
+
 \* classification of the request-target
-TargetClass(t) ==
+TargetClass0(t) ==
   IF t = <<>> \/ t[1] # 47 THEN "badpath"                         \* not origin-form
   ELSE LET q == IndexOf(t, 63)
            path == IF q = 0 THEN t ELSE Sub(t, 1, q-1)
@@ -44,20 +65,32 @@ TargetClass(t) ==
              /\ PctOk(query, 1, (PcharNoPct \cup {47, 63}) \ {39})   \* ' in a query is re-encoded by the URL parser: free
              /\ \A k \in 1..Len(segs) : ~DotSeg(segs[k])
           THEN "exact" ELSE "free"
+\* Bytes above 127 are outside the grammar.  A target in which they do not even form UTF-8 text is rejected (no text to
+\* expose); one in which they do is tolerated by the library, which exposes it percent-encoded: that leniency is pinned
+\* ("free"), but if such a target is accepted, what is exposed must still be the bytes that were sent (Faith below).
+TargetClass(t) == IF HasHigh(t) /\ ~Utf8Ok(t, 1) THEN "badpath" ELSE TargetClass0(t)
+Flat(t) == [i \in 1..Len(t) |-> IF t[i] >= 128 THEN 97 ELSE t[i]]
+Faith(t) ==
+  IF HasHigh(t) /\ Utf8Ok(t, 1) /\ TargetClass0(Flat(t)) = "exact"
+  THEN LET q == IndexOf(t, 63) IN
+       [on |-> TRUE, path |-> EncHigh(IF q = 0 THEN t ELSE Sub(t, 1, q-1)), hasQuery |-> q # 0,
+        query |-> EncHigh(IF q = 0 THEN <<>> ELSE Sub(t, q+1, Len(t)))]
+  ELSE [on |-> FALSE]
 
 ReqLine(line) ==
   LET parts == Split(line, SP) IN
   IF Len(parts) # 3 \/ parts[1] = <<>> \/ parts[2] = <<>> \/ parts[3] = <<>>
      \/ ~AllIn(parts[1], Tchar) \/ ~NoWs(parts[2]) \/ ~NoWs(parts[3])
-  THEN [ok |-> FALSE, errs |-> {"MalformedRequestLine"}, free |-> FALSE]
+  THEN [ok |-> FALSE, errs |-> {"MalformedRequestLine"}, free |-> FALSE, faith |-> [on |-> FALSE]]
   ELSE LET tc == TargetClass(parts[2])
            badv == parts[3] # Version
            errs == (IF tc = "badpath" THEN {"MalformedPath"} ELSE {}) \cup (IF badv THEN {"UnsupportedProtocol"} ELSE {})
-       IN IF errs # {} /\ (tc # "free") THEN [ok |-> FALSE, errs |-> errs, free |-> FALSE]
-          ELSE IF tc = "free" THEN [ok |-> FALSE, errs |-> errs, free |-> TRUE]
+       IN IF errs # {} /\ (tc # "free") THEN [ok |-> FALSE, errs |-> errs, free |-> FALSE, faith |-> [on |-> FALSE]]
+          ELSE IF tc = "free" THEN [ok |-> FALSE, errs |-> errs, free |-> TRUE,
+                                    faith |-> IF errs = {} THEN Faith(parts[2]) ELSE [on |-> FALSE]]
           ELSE LET t == parts[2]
                    q == IndexOf(t, 63)
-               IN [ok |-> TRUE, errs |-> {}, free |-> FALSE, method |-> parts[1],
+               IN [ok |-> TRUE, errs |-> {}, free |-> FALSE, faith |-> [on |-> FALSE], method |-> parts[1],
                    path |-> IF q = 0 THEN t ELSE Sub(t, 1, q-1),
                    hasQuery |-> q # 0,
                    query |-> IF q = 0 THEN <<>> ELSE Sub(t, q+1, Len(t))]
@@ -88,7 +121,8 @@ RefLines(lines) ==
       anyFree == bareLF \/ rl.free \/ (\E k \in 1..Len(fs) : fs[k].cls = "free")
       fieldReject == \E k \in 1..Len(fs) : fs[k].cls = "reject"
       errs == (IF rl.ok THEN {} ELSE rl.errs) \cup (IF fieldReject THEN {"MalformedHeader"} ELSE {})
-  IN IF anyFree THEN [class |-> "free", errs |-> errs \cup {"MalformedRequestLine", "MalformedPath", "UnsupportedProtocol", "MalformedHeader"}]
+  IN IF anyFree THEN [class |-> "free", errs |-> errs \cup {"MalformedRequestLine", "MalformedPath", "UnsupportedProtocol", "MalformedHeader"},
+                      faith |-> rl.faith]
      ELSE IF errs # {} THEN [class |-> "reject", errs |-> errs]
      ELSE [class |-> "accept", errs |-> {}, method |-> rl.method, path |-> rl.path, hasQuery |-> rl.hasQuery, query |-> rl.query,
            fields |-> [k \in 1..Len(fs) |-> <<fs[k].name, fs[k].value>>]]
